@@ -100,6 +100,45 @@ fn kx_panic_slice_ref_foreign() {
     assert!(false, "slice_ref accepted a slice outside the handle");
 }
 
+// ---- quick frame obligations: the same wrappers on the STATIC representation (no heap object, so
+// proof_for_contract is cheap).  The code before the documented panic of these four operations
+// does not look at the representation, so "nothing written before the panic" is decided here on
+// every change; the thorough tier repeats it on the shared representations.  The expected panic
+// may sit in any of the four operations (a bounds check delegated to a sibling is not a defect).
+
+// @ob props=C13,C02 tier=quick kind=Kinf expect="panic:(Bytes::split_off|Bytes::split_to|Bytes as .*Buf>::advance|Bytes::slice(::<.*>)?)$" fns=Bytes::split_off timeout=900
+#[kani::proof_for_contract(split_off_oob)]
+fn kx_panic_split_off_frame_static() {
+    let (mut b, off, len) = super::verif_b_misc::any_static();
+    let at: usize = kani::any();
+    let _ = split_off_oob(&mut b, at);
+}
+
+// @ob props=C13,C02 tier=quick kind=Kinf expect="panic:(Bytes::split_off|Bytes::split_to|Bytes as .*Buf>::advance|Bytes::slice(::<.*>)?)$" fns=Bytes::split_to timeout=900
+#[kani::proof_for_contract(split_to_oob)]
+fn kx_panic_split_to_frame_static() {
+    let (mut b, off, len) = super::verif_b_misc::any_static();
+    let at: usize = kani::any();
+    let _ = split_to_oob(&mut b, at);
+}
+
+// @ob props=C13,C02,C09 tier=quick kind=Kinf expect="panic:(Bytes::split_off|Bytes::split_to|Bytes as .*Buf>::advance|Bytes::slice(::<.*>)?)$" fns=Bytes::advance timeout=900
+#[kani::proof_for_contract(advance_oob)]
+fn kx_panic_advance_frame_static() {
+    let (mut b, off, len) = super::verif_b_misc::any_static();
+    let n: usize = kani::any();
+    advance_oob(&mut b, n);
+}
+
+// @ob props=C13,C02 tier=quick kind=Kinf expect="panic:(Bytes::split_off|Bytes::split_to|Bytes as .*Buf>::advance|Bytes::slice(::<.*>)?)$" fns=Bytes::slice timeout=900
+#[kani::proof_for_contract(slice_oob)]
+fn kx_panic_slice_frame_static() {
+    let (b, off, len) = super::verif_b_misc::any_static();
+    let lo: usize = kani::any();
+    let hi: usize = kani::any();
+    let _ = slice_oob(&b, lo, hi);
+}
+
 // ---- quick variants: same pre-states and arguments without the assigns clause ------------------
 // (reach exactly the documented panic, no UB on the way, never return; "nothing written before
 // the panic" is the thorough-tier proof_for_contract obligation above)
